@@ -52,19 +52,27 @@ func (f *SlotValue) Call(s *slip.Scope, args slip.List, depth int) (result slip.
 			return slotMissing(s, inst, sym, "slot-value", depth)
 		}
 		if result == slip.Unbound {
-			if fi := slip.FindFunc("slot-unbound"); fi != nil {
-				args := slip.List{
-					slip.FindClass(string(inst.Hierarchy()[0])),
-					inst,
-					sym,
-				}
-				f, _ := fi.Create(args).(slip.Funky)
-
-				result = f.Caller().Call(s, args, depth)
-			}
+			result = slotUnbound(s, inst, sym, depth)
 		}
 	} else {
 		return slotMissing(s, args[0], sym, "slot-value", depth)
+	}
+	return
+}
+
+// slotUnbound calls the slot-unbound generic function for an unbound slot of
+// an instance. The default method raises an unbound-slot error.
+func slotUnbound(s *slip.Scope, inst slip.Instance, sym slip.Symbol, depth int) (result slip.Object) {
+	result = slip.Unbound
+	if fi := slip.FindFunc("slot-unbound"); fi != nil {
+		args := slip.List{
+			slip.FindClass(string(inst.Hierarchy()[0])),
+			inst,
+			sym,
+		}
+		f, _ := fi.Create(args).(slip.Funky)
+
+		result = f.Caller().Call(s, args, depth)
 	}
 	return
 }
